@@ -20,6 +20,7 @@ TraceInit == Init /\ tid \in 1 .. NTraces /\ l = 1
 
 Ev ==
   \/ E.kind = "tick" /\ Tick(E.k)
+  \/ E.kind = "delete" /\ DeleteF
   \/ E.kind = "error" /\ (CallError \/ CallNoNeed)
   \/ E.kind = "end" /\ (CallEnd \/ CallNoNeed)
   \* an interruption planned for a hand-over that never comes: the call runs to the end
